@@ -127,6 +127,8 @@ class UDSClient:
                 isinstance(resp, service.NegativeResponse)
                 and resp.response_code == UDSErrorCodes.requestCorrectlyReceivedResponsePending
             ):
+                if n_pending >= MAX_N_PENDING:
+                    raise RuntimeError("ECU appears to be stuck in ResponsePending loop")
                 logger.info(
                     f"Received ResponsePending: {n_pending}/{MAX_N_PENDING}; "
                     + f"waiting for next message: {n_timeout}/{int(max_n_timeout)}"
@@ -155,8 +157,6 @@ class UDSClient:
                 resp = parse_pdu(raw_resp, request)
                 n_timeout = 0  # Only raise errors for consecutive timeouts
                 n_pending += 1
-                if n_pending >= MAX_N_PENDING:
-                    raise RuntimeError("ECU appears to be stuck in ResponsePending loop")
             else:
                 # We reach this code here once all response pending
                 # and similar busy stuff is resolved.
